@@ -441,7 +441,7 @@ def run_unit(u, scratch, probes, tier):
             res["why"] = "goto-instrument --dfcc failed: " + o[-2500:]
             return res
         cur = b_gb
-    unwind = u.get("unwind", "8")
+    unwind = u.get("unwind", "40")
     flags = list(SAFETY) if u.get("safety", "yes") == "yes" else []
     flags += ["--unwind", unwind, "--unwinding-assertions"]
     flags += u.get("flags", "").split()
@@ -533,7 +533,7 @@ def trace_for(u, res, scratch):
     if not os.path.exists(cur):
         cur = os.path.join(wdir, "u.gb") if os.path.exists(os.path.join(wdir, "u.gb")) else os.path.join(wdir, "a.gb")
     flags = list(SAFETY) if u.get("safety", "yes") == "yes" else []
-    flags += ["--unwind", u.get("unwind", "8"), "--unwinding-assertions"] + u.get("flags", "").split()
+    flags += ["--unwind", u.get("unwind", "40"), "--unwinding-assertions"] + u.get("flags", "").split()
     cmd = ["cbmc"] + flags + ["--trace", "--json-ui"]
     for f in res["failed"][:3]:
         cmd += ["--property", f["property"]]
